@@ -5,7 +5,12 @@ file a LasWriter produces for original points + appended chunks (impl vs impl, b
 (the one-shot writer shares the header code: equality with it is not enough), VLR area byte-identical to the original's, EVLRs preserved and
 relocated, caller's record untouched, foreign formats refused; every way of opening the appender (class, laspy.open on a stream / on a path,
 encoding_errors, laz_backend None / (), closefd) on originals whose header strings / VLR descriptions are not ASCII; several appenders alive at
-the same time on files built from one header; one-off torn writes followed by continued use."""
+the same time on files built from one header; one-off torn writes followed by continued use. Round 5: refused calls followed by RE-USE of the
+same record object (scale-aware records of which only a LATER coordinate - Y or Z - does not fit the file's grid, repaired in place and appended
+again at once / later / in the next session; refused records written elsewhere), every accepted chunk compared through a private copy taken before
+the call; files next to their capacity (sparse file objects announcing 2**32 - 1 - n points: exactly the maximum accepted, one more refused, LAS 1.4
+beyond 2**32) with the rule of Model/AppendCap.v run next to every decision; appended chunks of lengths where block-wise copies change behaviour
+(multiples of 2**16, 2**17 +- 1, beyond 2**20) given as strided / reversed views."""
 import io
 import os
 import tempfile
@@ -15,6 +20,11 @@ import numpy as np
 from harness import common, lasio
 
 ASSUMPTIONS = ["uncompressed files (LAZ append is C14)", "rescaling of differently scaled scale-aware records is compared against the writer's rule on the implementation, not modelled in Coq",
+               "files next to the capacity of their version (2**32 - 1 points up to LAS 1.3) are sparse in-memory file objects: legal files of all-zero records whose "
+               "point block is not materialised (holes read as zeros); the one-shot file of such a total cannot be produced, the appended file is judged on "
+               "where the new records are stored, the count, the statistics of (zero record ++ chunks), the EVLRs and the length; the capacity rule itself "
+               "(takes_more) is proved equal for appender and writer (C06_capacity_same_rule) and compared with every decision of the implementation; "
+               "2**64 - 1 points (LAS 1.4) is out of reach",
                "I/O faults judged here: an append_points whose low-level write fails with OSError BEFORE storing any byte, followed by anything (with-block "
                "exit, more chunks, the same chunk again, close): the refused chunk counts as not accepted and the file must be equivalent to original ++ "
                "accepted chunks. Torn writes (bytes stored) are C19's (reading never yields other records); C06 does not range over them"]
@@ -71,6 +81,48 @@ def write_ref(h, recs, evl, enc):
     return bio.getvalue()
 
 
+def clone_record(rec):
+    """a private copy of a record (array, scales, offsets), taken BEFORE the record is handed to laspy: what the caller meant to append"""
+    import laspy
+    if hasattr(rec, "scales"):
+        return laspy.ScaleAwarePointRecord(rec.array.copy(), rec.point_format, np.array(rec.scales, dtype=np.float64).copy(), np.array(rec.offsets, dtype=np.float64).copy())
+    return laspy.PackedPointRecord(rec.array.copy(), rec.point_format)
+
+
+def rec_state(rec):
+    return (lasio.rec_bytes(rec), tuple(map(float, getattr(rec, "scales", []))), tuple(map(float, getattr(rec, "offsets", []))), lasio.format_key(rec.point_format),
+            str(rec.array.dtype))
+
+
+def reuse_elsewhere(rec):
+    """the bytes of the file a record gives when it is written to a fresh file of ITS OWN format: what a caller who was refused here
+    (foreign format, no room, coordinates out of range) does next with the same object"""
+    import laspy
+    hh = laspy.LasHeader(point_format=rec.point_format, version="1.4")
+    if hasattr(rec, "scales"):
+        hh.scales, hh.offsets = np.array(rec.scales, dtype=np.float64), np.array(rec.offsets, dtype=np.float64)
+    return lasio.write_las(hh, rec if len(rec.array.shape) else None)
+
+
+def overflowing_record(rng, h, dims=None):
+    """a scale-aware record in ANOTHER scaling than the file's (scales multiplied by 2 / 10 / 1000, or the same scales and offsets shifted by
+    about 2**31 grid steps) in which the coordinates named by `dims` - X only, Y only, Z only, two of them, all three - of ONE point do not fit
+    the file's int32 grid while every other coordinate does. Returns (record, dims, index of the outlier)."""
+    import laspy
+    k = rng.choice([1, 2, 5])
+    rec0 = lasio.rand_points(rng, h, k, pattern="small")
+    for kx in "XYZ":
+        rec0.array[kx] = np.array([rng.randrange(-1000, 1001) for _ in range(k)], dtype=np.int32)
+    dims = dims or rng.choice([("X",), ("Y",), ("Z",), ("Y",), ("Z",), ("Y", "Z"), ("X", "Z"), ("X", "Y", "Z")])
+    i = rng.randrange(k)
+    f = rng.choice([2.0, 10.0, 1000.0])
+    sc = np.array(h.scales, dtype=np.float64) * f
+    of = np.array(h.offsets, dtype=np.float64).copy()
+    for dn in dims:
+        rec0.array[dn][i] = rng.choice([1, -1]) * (int(2 ** 31 / f) + rng.randrange(3000, 100000))
+    return laspy.ScaleAwarePointRecord(rec0.array, rec0.point_format, sc, of), dims, i
+
+
 def gen(ctx):
     import laspy
     rng = ctx.rng
@@ -106,6 +158,7 @@ def gen(ctx):
     outs_all = []
     model_cmds = []
     use_with = rng.random() < 0.3     # the session runs inside a with-block; a refused chunk then propagates out of it
+    carry = []
     for si in range(rng.choice([1, 1, 2, 3])):
         bio = PathStream(cur) if need_path else lasio.KeepStream(cur)
         try:
@@ -115,25 +168,41 @@ def gen(ctx):
                 return {"desc": desc, "final": None, "error": "open: " + repr(ex)}
             toks, sdesc = [], []
             closed_by_with = False
+            pending = list(carry)     # (record refused earlier and repaired since, what the caller means by it) waiting to be appended again
+            carry = []
             for _ in range(rng.randrange(0, 5)):
                 r = rng.random()
-                if r < 0.62:
-                    rec = mk(rng.choice([0, 0, 1, 2, 7]))
-                    if len(rec) == 1 and rng.random() < 0.4:
-                        rec = rec[0]   # 0-d one-point record (las.points[i])
-                    kind = "same"
-                elif r < 0.8:
-                    # scale-aware record, same or different scaling (contents small enough to be representable)
-                    k = rng.choice([1, 2, 5])
-                    rec0 = lasio.rand_points(rng, h, k, pattern="small")
-                    sc = np.array(h.scales) * rng.choice([1.0, 1.0, 10.0, 0.5])
-                    of = np.array(h.offsets) + rng.choice([0.0, 0.0, 1.0, -2.5])
-                    rec = laspy.ScaleAwarePointRecord(rec0.array, rec0.point_format, sc, of)
-                    kind = "scaled" if (np.any(sc != h.scales) or np.any(of != h.offsets)) else "same"
+                outlier = None
+                if pending and rng.random() < 0.6:
+                    # RE-USE of a record object an earlier append_points refused (the caller repaired the outlier in place)
+                    rec, ref = pending.pop(0)
+                    kind = "scaled"
+                    reused = True
                 else:
-                    rec = lasio.foreign_points(rng, h, rng.choice([0, 1, 2]))
-                    kind = "foreign"
-                before_rec = (lasio.rec_bytes(rec), tuple(map(float, getattr(rec, "scales", []))), tuple(map(float, getattr(rec, "offsets", []))))
+                    reused = False
+                    if r < 0.58:
+                        rec = mk(rng.choice([0, 0, 1, 2, 7]))
+                        if len(rec) == 1 and rng.random() < 0.4:
+                            rec = rec[0]   # 0-d one-point record (las.points[i])
+                        kind = "same"
+                    elif r < 0.74:
+                        # scale-aware record, same or different scaling (contents small enough to be representable)
+                        k = rng.choice([1, 2, 5])
+                        rec0 = lasio.rand_points(rng, h, k, pattern="small")
+                        sc = np.array(h.scales) * rng.choice([1.0, 1.0, 10.0, 0.5])
+                        of = np.array(h.offsets) + rng.choice([0.0, 0.0, 1.0, -2.5])
+                        rec = laspy.ScaleAwarePointRecord(rec0.array, rec0.point_format, sc, of)
+                        kind = "scaled" if (np.any(sc != h.scales) or np.any(of != h.offsets)) else "same"
+                    elif r < 0.86:
+                        # scale-aware record of another scaling in which ONE coordinate (X, or only a LATER one: Y / Z) of one point does not
+                        # fit the file's grid: must be refused (OverflowError) leaving the file AND the record as they were
+                        rec, outlier, oi = overflowing_record(rng, h)
+                        kind = "scaled-overflow"
+                    else:
+                        rec = lasio.foreign_points(rng, h, rng.choice([0, 1, 2]))
+                        kind = "foreign"
+                    ref = clone_record(rec)
+                before_rec = rec_state(rec)
                 before_file = bio.getvalue()
                 try:
                     if use_with and kind == "foreign" and len(rec):
@@ -144,7 +213,7 @@ def gen(ctx):
                             o = "ok"
                         except Exception as ex:
                             o = "err:" + common.exc_kind(ex)
-                        after_rec = (lasio.rec_bytes(rec), tuple(map(float, getattr(rec, "scales", []))), tuple(map(float, getattr(rec, "offsets", []))))
+                        after_rec = rec_state(rec)
                         outs_all.append((kind, len(rec), o, before_rec == after_rec, True))
                         sdesc.append(f"{kind}{len(rec)}!with-exit")
                         toks.append("F" + common.hexb(bytes(len(rec) * h.point_format.size)))
@@ -154,19 +223,47 @@ def gen(ctx):
                     o = "ok"
                 except Exception as ex:
                     o = "err:" + common.exc_kind(ex)
-                after_rec = (lasio.rec_bytes(rec), tuple(map(float, getattr(rec, "scales", []))), tuple(map(float, getattr(rec, "offsets", []))))
-                outs_all.append((kind, len(rec), o, before_rec == after_rec, before_file == bio.getvalue() if not need_path else True))
-                sdesc.append(f"{kind}{len(rec)}")
+                after_rec = rec_state(rec)
+                same_rec = before_rec == after_rec
+                if same_rec and o != "ok" and len(rec) and len(rec.array.shape):
+                    # RE-USE of a refused record somewhere else: it must still be the record the caller built
+                    try:
+                        same_rec = reuse_elsewhere(rec) == reuse_elsewhere(ref)
+                    except Exception:
+                        same_rec = False
+                outs_all.append((kind, len(rec), o, same_rec, before_file == bio.getvalue() if not need_path else True))
+                sdesc.append(f"{kind}{len(rec)}" + (f"({'+'.join(outlier)} of point {oi} out of range)" if outlier else "") + ("(re-used after a refusal)" if reused else ""))
                 if kind == "foreign":
                     toks.append("F" + common.hexb(bytes(len(rec) * h.point_format.size)))
+                elif kind == "scaled-overflow":
+                    model_ok = False
+                    # the caller repairs the outlier IN PLACE (same record object) and will append the record again: now, later in this
+                    # session, or in the next one
+                    for dn in outlier:
+                        rec.array[dn][oi] = ref.array[dn][oi] = np.int32(rng.randrange(-1000, 1001))
+                    (pending if rng.random() < 0.7 else carry).append((rec, ref))
+                    if rng.random() < 0.5 and pending and pending[-1][0] is rec:
+                        # at once
+                        rec2, ref2 = pending.pop()
+                        b2, f2 = rec_state(rec2), bio.getvalue()
+                        try:
+                            ap.append_points(rec2)
+                            o2 = "ok"
+                        except Exception as ex:
+                            o2 = "err:" + common.exc_kind(ex)
+                        outs_all.append(("scaled", len(rec2), o2, b2 == rec_state(rec2), f2 == bio.getvalue() if not need_path else True))
+                        sdesc.append(f"scaled{len(rec2)}(re-used after a refusal)")
+                        if o2 == "ok":
+                            chunks_all.append(ref2)
                 elif kind == "scaled":
                     model_ok = False
                     if o == "ok":
-                        chunks_all.append(rec)
+                        chunks_all.append(ref)
                 else:
                     toks.append("T" + common.hexb(lasio.rec_bytes(rec)))
                     if o == "ok":
-                        chunks_all.append(rec)
+                        chunks_all.append(ref)
+            carry += pending
             try:
                 if not closed_by_with:
                     ap.close()
@@ -202,7 +299,9 @@ def correspond(ctx):
                          "or same id and other extra dims); the appender obtained through the class, laspy.open on a stream or on a path, with encoding_errors "
                          "/ laz_backend None or () / closefd. Model compared on sessions without differently scaled records. Search adds: every (version, "
                          "format) pair with every return number; ensembles of appenders alive together; strict appends on non-ASCII originals; non-ASCII "
-                         "EVLR descriptions; one-off torn writes. non-trivial = at least one non-empty accepted chunk; distinct by description + bytes")
+                         "EVLR descriptions; one-off torn writes; scale-aware chunks of which only X / only Y / only Z does not fit the file's grid (refused), "
+                         "repaired in place and appended again; sparse files announcing 2**32 - 1 - n points (capacity rule takes_more vs every decision); large "
+                         "strided appended chunks. non-trivial = at least one non-empty accepted chunk; distinct by description + bytes")
     ss = sessions_for(ctx)
     dis = []
     cmds, idx = [], []
@@ -233,6 +332,20 @@ def correspond(ctx):
             ok = len(parts) >= 3 and parts[-2] == "ok" and common.unhex(parts[-1]) == nxt
             if not ok:
                 dis.append({"kind": "append session bytes", "input": s["desc"], "model": mo[:100], "impl": common.hexb(nxt)[:100]})
+    # the capacity rule (Model/AppendCap.v takes_more, theorems C06_capacity / C06_capacity_same_rule) next to the implementation's decisions on
+    # sparse files announcing 2**32 - 1 - n points (and 1.4 files around 2**32): driver "c06" (coq/ExtractC06.v)
+    ok, log = common.build_driver("c06")
+    if not ok:
+        dis.append({"kind": "capacity rule: driver could not be built", "input": None, "model": log[-400:], "impl": None})
+        return dis
+    capacity_results(ctx)
+    lines = [f"cap {maj} {mnr} {cnt} {n}" for maj, mnr, cnt, n, _, _ in _CAP_DECISIONS]
+    for (maj, mnr, cnt, n, o, d), mo in zip(_CAP_DECISIONS, common.run_model(lines, name="c06")):
+        ctx.traces += 1
+        ctx.case(("cap", maj, mnr, cnt, n), nontrivial=True)
+        want = "ok" if mo == "T" else "err:ELaspy"
+        if o != want:
+            dis.append({"kind": "capacity rule: append_points decides otherwise than takes_more", "input": dict(d, count=cnt, appended=n), "model": want, "impl": o})
     return dis
 
 
@@ -287,12 +400,17 @@ def search(ctx, seeds):
             for kind, n, o, rec_same, file_same in s["outs"]:
                 if kind == "foreign" and n > 0 and (o != "err:ELaspy" or not file_same):
                     add("foreign format not refused", d, f"append_points of a foreign format ({n} points): {o}, file unchanged={file_same}")
+                if not rec_same:
+                    add("caller's record modified by append" + (" (refused chunk)" if o != "ok" else ""), d,
+                        f"{kind} chunk of {n} points: after append_points ({o}) the caller's record is not what it was (bytes / scales / offsets)")
+                if kind == "scaled-overflow":
+                    if o != "err:EOverflow" or not file_same:
+                        add("scale-aware chunk that does not fit the file's grid: not refused with OverflowError / file touched", d, f"{n} points: {o}, file unchanged={file_same}")
+                    continue
                 if kind == "scaled" and o == "err:EOverflow" and file_same:
                     continue   # not representable in the file's scaling: refused, nothing written
                 if kind != "foreign" and o != "ok":
                     add(f"append of {kind} chunk failed", d, f"{n} points: {o}")
-                if not rec_same:
-                    add("caller's record modified by append", d, f"{kind} chunk of {n} points changed (bytes/scales/offsets)")
             # exact statistics, recomputed from the bytes
             probs = lasio.raw_stats_problems(s["final"])
             if probs:
@@ -323,6 +441,14 @@ def search(ctx, seeds):
         for kind, d, why in refused_sessions(ctx):
             add(kind, d, why)
     _guarded(add, 'non-ASCII originals', sec_non_ASCII_originals)
+    def sec_capacity():
+        for kind, d, why in capacity_results(ctx):
+            add(kind, d, why)
+    _guarded(add, 'capacity of the file', sec_capacity)
+    def sec_big_appends():
+        for kind, d, why in big_appends(ctx):
+            add(kind, d, why)
+    _guarded(add, 'large appended records', sec_big_appends)
     def sec_torn_writes():
         for kind, d, why in torn_appends(ctx):
             add(kind, d, why)
@@ -536,6 +662,176 @@ def torn_appends(ctx):
         probs += [p for p in preserved_problems(run["base"], fin)]
         if probs:
             out.append((f"refused write (appender, nothing stored, {tag}): the file is not equivalent to original ++ accepted chunks", d, "; ".join(probs[:3])))
+    return out
+
+
+_CAP = None
+_CAP_DECISIONS = []
+
+
+def capacity_results(ctx):
+    global _CAP
+    if _CAP is None:
+        _CAP = capacity_cases(ctx)
+    return _CAP
+
+
+def capacity_cases(ctx):
+    """(e) the capacity of the file: an original whose header announces max - room points (LAS 1.1-1.3 count their points in 32 bits:
+    max = 2**32 - 1; a sparse file object stands for it: it is a LEGAL file of all-zero records whose holes read as zeros) and append calls
+    around the boundary. An append whose total stays <= max must be accepted exactly like the one-shot writer accepts that total
+    (LasHeader.max_point_count() is the rule of both), one point more must be refused with LaspyException leaving file and record alone, and
+    the refused record (or a part of it) must be usable afterwards. LAS 1.4 counts in 64 bits: nothing near 2**32 may be refused there.
+    The appended file must hold the new records right behind the old ones, its header must count them all and carry the statistics of
+    (zero record) ++ chunks, the EVLRs must follow."""
+    import laspy
+    from laspy.lasappender import LasAppender
+    from laspy.vlrs.vlrlist import VLRList
+    rng = ctx.rng
+    out = []
+    LEGACY_MAX = 2 ** 32 - 1
+    for it in range(ctx.n(36, 300)):
+        version = ["1.2", "1.1", "1.3", "1.4", "1.2", "1.4"][it % 6]
+        h = lasio.small_header(rng, version) if rng.random() < 0.7 else lasio.rand_header(rng, version=version)
+        minor = h.version.minor
+        evl = VLRList([lasio.rand_vlr(rng, 50) for _ in range(rng.choice([1, 2]))]) if (minor >= 4 and rng.random() < 0.6) else None
+        room = rng.choice([0, 1, 2, 3, 5, 17])
+        if minor >= 4:
+            c = rng.choice([LEGACY_MAX - room, LEGACY_MAX, LEGACY_MAX + 1 + room, 10 ** 10 + room])
+            cap = 2 ** 64 - 1
+        else:
+            c = LEGACY_MAX - room
+            cap = LEGACY_MAX
+        pub = int(h.max_point_count())
+        d = dict(lasio.describe_header(h), announced_points=c, room=cap - c if minor < 4 else "2**64-1-c", evlrs=len(evl or []), calls=[])
+        if pub != cap:
+            out.append(("LasHeader.max_point_count() is not the capacity of the version", d, f"{pub} for LAS {h.version}, the count field holds up to {cap}"))
+            continue
+        try:
+            sp, head0, small = lasio.make_sparse_las(h, c, evl)
+            via = rng.choice(["class", "open"])
+            ap = laspy.open(sp, mode="a", closefd=False) if via == "open" else LasAppender(sp, closefd=False)
+        except Exception as ex:
+            out.append(("file near the capacity of its version: the appender cannot be opened", d, f"{type(ex).__name__}: {ex}"))
+            continue
+        d["open"] = via
+        ps = h.point_format.size
+        off = lasio.parse_raw(head0)["offset"]
+        # the calls: sizes chosen around the room that is left
+        left = cap - c
+        sizes = []
+        for _ in range(rng.choice([1, 2, 3, 4])):
+            sizes.append(rng.choice([left + 1, left, max(left - 1, 0), 1, 0, left + 2, rng.randrange(0, left + 3)]) if minor < 4 else rng.choice([0, 1, 3, room + 1]))
+        if minor < 4 and rng.random() < 0.7:
+            sizes.append(left + 1)      # one more than what fits ...
+            sizes.append(left)          # ... then exactly what fits: the file reaches its maximum
+            sizes.append(1)             # ... and is full
+        total, accepted, problems = c, [], []
+        pool = lasio.sweep_points(rng, h, max(sizes + [1]) + 2, start=rng.randrange(16))
+        for n in sizes:
+            # the SAME record object is used again and again (sliced to the size wanted)
+            rec = pool[:n] if rng.random() < 0.8 else lasio.sweep_points(rng, h, n)
+            stored_as = None
+            if n and rng.random() < 0.3:
+                # a scale-aware record in another scaling: refused for lack of room it must come back untouched, accepted it is stored rescaled
+                small = lasio.rand_points(rng, h, n, pattern="small")
+                for kx in "XYZ":
+                    small.array[kx] = np.array([rng.randrange(-5000, 5000) for _ in range(n)], dtype=np.int32)
+                rec = laspy.ScaleAwarePointRecord(small.array, small.point_format, np.array(h.scales) * rng.choice([2.0, 10.0]), np.array(h.offsets, dtype=np.float64))
+                stored_as = lasio.raw_records(write_ref(h, [clone_record(rec)], None, {}))
+            before, snap = lasio.rec_bytes(rec), sp.snapshot()
+            before_state = rec_state(rec)
+            try:
+                ap.append_points(rec)
+                o = "ok"
+            except Exception as ex:
+                o = "err:" + common.exc_kind(ex)
+            fits = total + n <= cap
+            if n:
+                _CAP_DECISIONS.append((h.version.major, minor, total, n, o, dict(d)))
+            d["calls"].append(f"{n}:{o}")
+            ctx.count(f"capacity:{'1.4' if minor >= 4 else 'legacy'}:{'fits' if fits else 'too many'}:{o}")
+            if rec_state(rec) != before_state:
+                problems.append(f"the {'scale-aware ' if stored_as is not None else ''}record of {n} points was modified by append_points ({o}): bytes / scales / offsets differ")
+            if fits and n and o != "ok":
+                problems.append(f"append of {n} points to a file of {total} (capacity {cap}: the total {total + n} fits, the one-shot writer accepts it) was refused: {o}")
+            elif not fits and (o != "err:ELaspy" or sp.snapshot() != snap):
+                problems.append(f"append of {n} points to a file of {total} (capacity {cap}) must be refused with LaspyException leaving the file alone: {o}, file unchanged={sp.snapshot() == snap}")
+            if o == "ok" and n:
+                if sp.read_at(off + total * ps, n * ps) != (before if stored_as is None else stored_as):
+                    problems.append(f"the {n} appended records are not stored at offset + {total} x {ps}")
+                total += n
+                accepted.append(rec)
+        try:
+            ap.close()
+        except Exception as ex:
+            problems.append(f"close raised {type(ex).__name__}: {ex}")
+        ctx.case(("capacity", str(h.version), c, tuple(sizes), sp.snapshot()[1][:1]), nontrivial=True)
+        if not problems:
+            # the header: the statistics of (one zero record) ++ accepted chunks, counting c + appended points; EVLRs right behind the points
+            try:
+                ref = write_ref(h, [laspy.PackedPointRecord.zeros(1, h.point_format)] + accepted, evl, {})
+                dr = lasio.parse_raw(ref)
+                dg = lasio.parse_raw(sp.read_at(0, off))
+                if dg["count"] != total:
+                    problems.append(f"the header counts {dg['count']} points, the file holds {c} + {total - c} appended")
+                for k_ in ("maxs_bits", "mins_bits", "by_return", "scales", "offsets", "nvlrs", "offset", "psize", "fmt", "nevlrs"):
+                    if dg[k_] != dr[k_]:
+                        problems.append(f"header field {k_}: {dg[k_]} instead of {dr[k_]} (statistics of a zero record followed by the appended chunks)")
+                end = off + total * ps
+                if dg["nevlrs"]:
+                    if dg["evlr_start"] != end:
+                        problems.append(f"start_of_first_evlr {dg['evlr_start']} != offset + count x size = {end}")
+                    evb = ref[dr["evlr_start"]:]
+                    if sp.read_at(end, len(evb) + 1) != evb:
+                        problems.append("the EVLRs do not follow the last point (or something follows them)")
+                elif sp.size != end:
+                    problems.append(f"file length {sp.size} != offset {off} + {total} x {ps}")
+            except Exception as ex:
+                problems.append(f"the appended file cannot be examined: {type(ex).__name__}: {ex}")
+        if problems:
+            what = ("refused although the total fits" if any("was refused" in p_ for p_ in problems) else ("not refused / file touched" if any("must be refused" in p_ for p_ in problems)
+                    else ("caller's record modified" if any("was modified" in p_ for p_ in problems) else "file not equivalent")))
+            out.append((f"append at the capacity of the file ({'LAS 1.4' if minor >= 4 else 'LAS <= 1.3, 2**32-1 points'}): {what}", d, "; ".join(problems[:3])))
+    return out
+
+
+def big_appends(ctx):
+    """(f) one appended chunk of a LENGTH where block-wise copies change behaviour (multiples of 2**16, 2**17 +- 1, beyond 2**20), given as
+    a strided / reversed view, an index-array selection or whole: the appended file must be byte for byte the one-shot file"""
+    import laspy
+    from laspy.vlrs.vlrlist import VLRList
+    rng = ctx.rng
+    out = []
+    strided = ["[::2]", "[::-1]", "[1::2]", "[::3]", "[::-2]"]
+    # in every run: an exact multiple of 2**16, a neighbour of one, and one chunk beyond 2**20 - each as a view that is not contiguous
+    plan = [(rng.choice([2, 3, 4]) << 16, rng.choice(strided)), (rng.choice([(1 << 17) + 1, (1 << 17) - 1, (1 << 16) + 1]), rng.choice(strided)),
+            ((1 << 20) + 1, rng.choice(strided[:2])), (rng.choice(lasio.BIG_LENGTHS[:7]), rng.choice(lasio.BIG_SHAPES))]
+    for _ in range(ctx.n(1, 12)):
+        plan.append((rng.choice(lasio.BIG_LENGTHS), rng.choice(lasio.BIG_SHAPES[:2] + ["whole"])))
+    for L, shape in plan:
+        h = lasio.small_header(rng)
+        evl = VLRList([lasio.rand_vlr(rng, 40)]) if (h.version.minor >= 4 and rng.random() < 0.5) else None
+        A = lasio.rand_points(rng, h, rng.choice([0, 3]))
+        d = dict(lasio.describe_header(h), orig_points=len(A), appended=L, selection=shape, evlrs=len(evl or []))
+        try:
+            base, sel, want = lasio.big_selection(rng, h, L, shape)
+            bio = io.BytesIO(write_ref(h, [A], evl, {}))
+            with laspy.open(bio, mode="a", closefd=False) as ap:
+                ap.append_points(sel)
+            fin = bio.getvalue()
+            ref = write_ref(h, [A, laspy.PackedPointRecord.from_buffer(bytearray(want), h.point_format)], evl, {})
+        except Exception as ex:
+            out.append(("append of a large selection: the session raised", d, f"{type(ex).__name__}: {ex}"))
+            continue
+        ctx.case(("big-append", L, shape, fin[:500]), nontrivial=True)
+        ctx.count(f"big-append:{shape}")
+        probs = lasio.raw_stats_problems(fin)
+        if fin != ref:
+            probs.append(f"the appended file ({len(fin)} bytes) is not the one-shot file ({len(ref)} bytes)")
+        if probs:
+            out.append((f"append of a large {'contiguous' if shape in ('fancy', 'mask', 'whole') else 'non-contiguous'} record: not the one-shot file", d, "; ".join(probs[:3])))
+        del base, sel, want, fin, ref
     return out
 
 
